@@ -213,15 +213,23 @@ def validate_traces(trace_module, cfg, traces, *, shards=None, timeout=900, env=
     with ThreadPoolExecutor(max_workers=16) as ex:
         res = list(ex.map(run, range(shards)))
     acc = [False] * n
-    diag = [None] * n
+    rejects = [[] for _ in range(n)]
     for k, r in enumerate(res):
         if r.error and not r.finished:
             raise Machinery('trace validation TLC failure in %s: %s\n%s' % (trace_module, r.error, r.out[-2500:]))
         for v in r.prints('ACCEPT'):
             acc[idx[k][v[1] - 1]] = True
         for v in r.prints('REJECT'):
-            i = idx[k][v[1] - 1]
-            if diag[i] is None or v[2] >= diag[i][0]:
-                diag[i] = (v[2], v[3] if len(v) > 3 else '')
-    diag = [None if a else ('event %s: %s' % dg if dg else 'no step enabled (no diagnostic)') for a, dg in zip(acc, diag)]
+            rejects[idx[k][v[1] - 1]].append((v[2], str(v[3]) if len(v) > 3 else ''))
+    diag = []
+    for i in range(n):
+        rejects[i].sort()
+        if acc[i] and not rejects[i]:
+            diag.append(None)
+        elif rejects[i]:
+            acc[i] = False
+            diag.append('event %s: %s' % rejects[i][0])
+        else:
+            diag.append('no step enabled (no diagnostic)')
+    validate_traces.last_rejects = rejects
     return acc, diag, res
